@@ -194,6 +194,7 @@ func runC06(t *simrt.Tape, o Opts) Outcome {
 			pool := []string{"tenant-1", "tenant-12", "tenant-3", "tenant-7", "Tenant-1", "t", "tenant-10", "tenant-11", "tenant-2", "tenant-21", "tenant-4", "tenant-5", "tenant-6", "tenant-8", "tenant-9", "u1", "u2", "u3", "u4", "u5"}
 			n := 2 + t.Choose(4, "conc.sessions")
 			start := t.Choose(len(pool), "conc.start")
+			repeatIDs := t.Choose(3, "conc.repeat-ids") == 1
 			type got struct {
 				part string
 				se   *world.Sess
@@ -203,7 +204,11 @@ func runC06(t *simrt.Tape, o Opts) Outcome {
 			var tasks []*simrt.Task
 			for i := 0; i < n; i++ {
 				i := i
+				// distinct ids, or (a third of the time) the same few ids requested by several handlers at once
 				part := pool[(start+i*[]int{1, 3, 7}[t.Choose(3, "conc.step")])%len(pool)]
+				if repeatIDs {
+					part = pool[(start+t.Choose(2, "conc.which"))%len(pool)]
+				}
 				res[i].part = part
 				tasks = append(tasks, s.Go("handler", func() {
 					se, err := w.Open(p, part)
